@@ -211,14 +211,25 @@ def k_align(ctx):
                 firsts.append(s.path)
     if firsts != sorted(firsts):
         raise core.Infeasible("secondary order")
+    # with skip_errors an unreadable file only removes the pairs it is part of
+    skip = bool(ctx.bool("skip_errors"))
+    if skip:
+        for j in range(n2):
+            if bool(ctx.bool("secondary_%d_unreadable" % j)):
+                hb.fail_on.add(pb[j])
+        if bool(ctx.bool("primary_0_unreadable")):
+            h.fail_on.add(pa[0])
     ex = ModelExecutor(ctx, horizon=1)
     out = []
-    with _env(ctx, ex):
-        for prim, sec in a.align(b, matches=matches):
+    with _env(ctx, ex), warnings.catch_warnings():
+        warnings.simplefilter("ignore")
+        for prim, sec in a.align(b, matches=matches, skip_errors=skip):
             out.append((prim[0].path, prim[1], sec[0].path, sec[1]))
     want = []
     for (pi, secs) in matches:
         for s in secs:
+            if pi.path in h.fail_on or s.path in hb.fail_on:
+                continue
             want.append((pi.path, ("data", mfs.files[pi.path], ()), s.path, ("data", mfs.files[s.path], ())))
     ctx.check("every-matched-pair-once-with-right-data", out == want, detail="got %r want %r" % (out, want))
     used = sorted({s.path for _, secs in matches for s in secs})
